@@ -154,8 +154,28 @@ def target_names(t):
     return []
 
 
-def _binds(names, ind):
-    return [f"{ind}{n} = H.bind({n!r}, {n})" for n in names]
+def ann_tags(ann):
+    """Tag names carried by an annotation text ('"@A & @B"', 'tag.A & tag.B', 'int' -> ())."""
+    if not ann:
+        return ()
+    a = ann.strip()
+    if a.startswith('"@') or a.startswith("'@"):
+        parts = [p.strip() for p in a.strip("\"'").split("&")]
+        return tuple(sorted({p[1:] for p in parts if p.startswith("@")}))
+    if a.startswith("tag."):
+        return tuple(sorted({p.strip()[4:] for p in a.split("&")}))
+    return ()
+
+
+def _binds(names, ind, tags=None):
+    out = []
+    for n in names:
+        t = (tags or {}).get(n)
+        if t:
+            out.append(f"{ind}{n} = H.bind({n!r}, {n}, {tuple(t)!r})")
+        else:
+            out.append(f"{ind}{n} = H.bind({n!r}, {n})")
+    return out
 
 
 def r_stmts(stmts, ind, twin, ctx):
@@ -198,7 +218,7 @@ def r_stmt(s, ind, twin, ctx):
             return [f"{ind}{v}: {ann}"]
         out = [f"{ind}{v}: {ann} = {r_expr(e, twin)}"]
         if twin:
-            out += _binds([v], ind)
+            out += _binds([v], ind, {v: ann_tags(ann)})
         return out
     if k == "for":
         t, it, body, orelse = s[1], s[2], s[3], s[4]
@@ -363,7 +383,8 @@ def render(fn, twin=False, bind_stores=False, declared=None, entry_declares=()):
         lines.append(f"{ind}try:")
         for ug in sorted(entry_declares):
             lines.append(f"{ind}{IND}{ug} = H.declare({ug!r})")
-        lines += _binds(param_bind_order(fn), ind + IND)
+        ptags = {p[0]: ann_tags(p[3]) for p in fn["params"] if len(p) > 3}
+        lines += _binds(param_bind_order(fn), ind + IND, ptags)
         lines += r_stmts(rest, ind + IND, twin, ctx)
         if not rest or rest[-1][0] != "return":
             lines.append(f"{ind}{IND}return H.bind('#value', None)")
